@@ -50,7 +50,11 @@ type handler1 struct {
 	keepAlive        uint16
 	clientID         string
 	topicID          *util.IDSequence
-	pktBuffer        []snPkts.Packet
+	// All TopicIDs were handed out; guarded by topicIDLock (TopicIDs are
+	// allocated from both receive loops).
+	topicIDLock       sync.Mutex
+	topicIDsExhausted bool
+	pktBuffer         []snPkts.Packet
 	group            *errgroup.Group
 	transactions     *transactions.TransactionStore
 	// for testing
@@ -488,8 +492,17 @@ func (h *handler1) mqttReceiveLoop(ctx context.Context) error {
 }
 
 func (h *handler1) newTopicID() (uint16, error) {
+	h.topicIDLock.Lock()
+	defer h.topicIDLock.Unlock()
+
+	// The IDSequence signals the overflow only once and then starts over.
+	// TopicIDs must never be reused => once exhausted, always exhausted.
+	if h.topicIDsExhausted {
+		return 0, ErrTopicIDsExhausted
+	}
 	topicID, overflow := h.topicID.Next()
 	if overflow {
+		h.topicIDsExhausted = true
 		return 0, ErrTopicIDsExhausted
 	}
 	for {
@@ -497,6 +510,7 @@ func (h *handler1) newTopicID() (uint16, error) {
 			break
 		}
 		if topicID, overflow = h.topicID.Next(); overflow {
+			h.topicIDsExhausted = true
 			return 0, ErrTopicIDsExhausted
 		}
 	}
